@@ -23,9 +23,9 @@ META = {
 }
 
 # triaged exceptions: (function qualname, stored target text) -> reason (one line each)
+# (none left: the two entries for `lat *= 3600` / `lon *= -3600` in interpolate_ntv2 were wrong - a 0-d numpy array passes the chained
+# comparisons, is scaled in place, and ntv2_2d then adds the shift to the scaled value; repaired in /repo, see known_findings.json)
 EXCEPTIONS = {
-    ('interpolate_ntv2', 'lat (in-place operator)'): 'lat *= 3600 re-binds a float; the chained comparisons that follow raise for arrays, so no array caller exists',
-    ('interpolate_ntv2', 'lon (in-place operator)'): 'lon *= -3600 re-binds a float; see lat',
 }
 
 
